@@ -37,3 +37,6 @@ def run(chk):
     run_scenario(chk, 'C07', 'c07', {'len': 1, 'k': 1, 'only': psk}, 'the same against a context with one auxiliary variable set (proposition names as long as the auxiliary BDD variable names)', lambda t: native_rename(t, 1), 'rename')
     if thorough: run_scenario(chk, 'C07', 'c07', {'len': 2}, 'the same with 2-character symbolic names', native_rename, 'rename')
     else: run_scenario(chk, 'C07', 'c07', {'len': 2, 'only': [0, 1, 2, 6, 7, 9, 13, 16, 19, 21, 23, 24, 25]}, 'the same with 2-character symbolic names (13 skeletons)', native_rename, 'rename')
+    if chk.unexplored:
+        from .. import fallback
+        fallback.preprocessing(chk, 'C07', native_rename)
